@@ -208,6 +208,32 @@ func C11(ctx *Ctx) {
 		return
 	}
 	rn := ramT.Type().(*types.Named)
+	// which fields of RAM hold the backing slice and the address offset: the ones the
+	// constructor fills from its two parameters (so a renamed field is still recognised)
+	dataF, offF := "data", "offset"
+	if ctor := ctx.Prog.Func("emulator/memory", "NewRAM"); ctor != nil && len(ctor.Params) == 2 {
+		cip := absint.New()
+		bt := types.NewSlice(types.Typ[types.Byte])
+		dv := cip.Load(&absint.State{Heap: absint.NewHeap(nil)}, &absint.Ptr{Obj: cip.SymObj("pdata", types.NewPointer(bt))}, bt)
+		ov := absint.NewSym(32, cip.In.Atom("poffset", 32, 0xFFFFFFFF), false)
+		res, _ := cip.Call(ctor, []absint.Val{dv, ov}, nil, &absint.State{Heap: absint.NewHeap(nil)})
+		if sv, ok := res.(*absint.Struct); ok {
+			if st, ok := rn.Underlying().(*types.Struct); ok && len(sv.F) == st.NumFields() {
+				for fi, fv := range sv.F {
+					switch x := fv.(type) {
+					case *absint.Int:
+						if x.Lin.Key() == "0+poffset" {
+							offF = st.Field(fi).Name()
+						}
+					case *absint.Slice:
+						if strings.Contains(absint.ValKey(x), "pdata") {
+							dataF = st.Field(fi).Name()
+						}
+					}
+				}
+			}
+		}
+	}
 	var keys [2]string
 	okRam := true
 	for i, name := range []string{"Read", "Write"} {
@@ -245,7 +271,7 @@ func C11(ctx *Ctx) {
 		keys[i] = idx.Lin.Key()
 		base := absint.ValKey(e.Args[1])
 		wantKind := map[string]string{"Read": "dyn-load", "Write": "dyn-store"}[name]
-		if e.Kind != wantKind || !strings.Contains(base, "m.data") {
+		if e.Kind != wantKind || !strings.Contains(base, "m."+dataF) {
 			R.Fail("ram", name, mpos, fmt.Sprintf("%s performs %s on %s", name, e.Kind, base))
 			okRam = false
 		}
@@ -254,12 +280,12 @@ func C11(ctx *Ctx) {
 				R.Fail("ram", "Write:value", mpos, "Write does not store the value it is given")
 				okRam = false
 			}
-		} else if rv, ok := res.(*absint.Int); !ok || !strings.Contains(rv.Lin.Key(), "([m.data])[") {
+		} else if rv, ok := res.(*absint.Int); !ok || !strings.Contains(rv.Lin.Key(), "([m."+dataF+"])[") {
 			R.Fail("ram", "Read:value", mpos, "Read does not return the loaded cell: "+fmtVal(res))
 			okRam = false
 		}
 	}
-	want := "zext32(0+address+-1*m.offset)"
+	want := "zext32(0+address+-1*m." + offF + ")"
 	if okRam {
 		if keys[0] != keys[1] || !strings.Contains(keys[0], want) {
 			R.Fail("ram", "index", "", fmt.Sprintf("Read indexes data[%s], Write indexes data[%s]; want data[address-offset] in both", keys[0], keys[1]))
